@@ -14,6 +14,7 @@ import (
 	"path/filepath"
 	"strings"
 	"sync"
+	"sync/atomic"
 	"syscall"
 	"time"
 
@@ -87,20 +88,25 @@ type ForeignRemove struct {
 	Judged      bool   `json:"judged_violation"`
 }
 
+// Created returns the number of lock directory incarnations created so far, Removed the number of those ended.
+func (w *World) Created() int { return int(w.created.Load()) }
+func (w *World) Removed() int { return int(w.removed.Load()) }
+
 // World is one bubble's shared state.
 type World struct {
-	Dir      string // directory in which the lock directory lives
-	LockID   string
-	LockPath string
-	Base     afero.Fs
-	Mon      *fsmon.Monitor
-	S        *sched.Sched
-	Slow     map[string]time.Duration // per actor: every backend operation of that actor takes that much longer
-	SlowPath map[string]string        // ... only the operations whose path contains this (empty: all)
-	SlowOnce map[string]bool          // ... only the first such operation (one stall)
-	Rs       Stamper
-	Mem      bool // in-memory backend (afero MemMapFs): its own modification times, on the bubble's clock
-	Start    time.Time
+	created, removed atomic.Int64 // lock directory incarnations created / ended so far
+	Dir              string       // directory in which the lock directory lives
+	LockID           string
+	LockPath         string
+	Base             afero.Fs
+	Mon              *fsmon.Monitor
+	S                *sched.Sched
+	Slow             map[string]time.Duration // per actor: every backend operation of that actor takes that much longer
+	SlowPath         map[string]string        // ... only the operations whose path contains this (empty: all)
+	SlowOnce         map[string]bool          // ... only the first such operation (one stall)
+	Rs               Stamper
+	Mem              bool // in-memory backend (afero MemMapFs): its own modification times, on the bubble's clock
+	Start            time.Time
 
 	mu         sync.Mutex
 	Hist       []HistOp
@@ -140,6 +146,8 @@ type DirEvent struct {
 	Kind string // stamp | create | remove
 	Path string
 	T    time.Time // stamp value
+	Seq  int64     // backend operation the change belongs to: the changes of one operation (an entry removed or created and
+	// the directory re-stamped for it) are one state change, as in a kernel
 }
 
 // staleReadable reports whether, at some instant in [from, to], the on-disk state of incarnation inc satisfied the
@@ -167,6 +175,7 @@ func (w *World) staleReadableMargin(inc int, from, to time.Time, margin time.Dur
 		}
 		return true
 	}
+	var lastSeq int64
 	for _, ev := range w.dirEvents {
 		if ev.Inc != inc {
 			continue
@@ -174,10 +183,12 @@ func (w *World) staleReadableMargin(inc int, from, to time.Time, margin time.Dur
 		if ev.At.After(to) {
 			break
 		}
-		// the state before this event lasted until ev.At: ages only grow, so test at the end of that stretch
-		if pred(ev.At) {
+		// the state before this event lasted until ev.At: ages only grow, so test at the end of that stretch (not between
+		// the changes made by one and the same backend operation: nobody can have looked in between)
+		if (ev.Seq == 0 || ev.Seq != lastSeq) && pred(ev.At) {
 			return true
 		}
+		lastSeq = ev.Seq
 		switch ev.Kind {
 		case "create":
 			if _, ok := files[ev.Path]; !ok {
@@ -422,7 +433,7 @@ func (w *World) onStamp(path string, t time.Time, explicit bool, e *fsmon.Event)
 			w.cur.Newest = t
 		}
 		w.StampLog = append(w.StampLog, Stamp{Seq: e.Seq, Path: path, T: t, Explicit: explicit, Actor: e.Actor, Inc: w.cur.ID})
-		w.dirEvents = append(w.dirEvents, DirEvent{At: time.Now(), Inc: w.cur.ID, Kind: "stamp", Path: filepath.Clean(path), T: t})
+		w.dirEvents = append(w.dirEvents, DirEvent{At: time.Now(), Inc: w.cur.ID, Kind: "stamp", Path: filepath.Clean(path), T: t, Seq: e.Seq})
 	}
 }
 
@@ -446,9 +457,9 @@ func (w *World) after(e *fsmon.Event) {
 		if w.cur != nil {
 			switch {
 			case e.Op == fsmon.OpCreate || (e.Op == fsmon.OpOpenFile && e.Flag&os.O_CREATE != 0):
-				w.dirEvents = append(w.dirEvents, DirEvent{At: time.Now(), Inc: w.cur.ID, Kind: "create", Path: filepath.Clean(e.Path)})
+				w.dirEvents = append(w.dirEvents, DirEvent{At: time.Now(), Inc: w.cur.ID, Kind: "create", Path: filepath.Clean(e.Path), Seq: e.Seq})
 			case e.Op == fsmon.OpRemove || e.Op == fsmon.OpRemoveAll:
-				w.dirEvents = append(w.dirEvents, DirEvent{At: time.Now(), Inc: w.cur.ID, Kind: "remove", Path: filepath.Clean(e.Path)})
+				w.dirEvents = append(w.dirEvents, DirEvent{At: time.Now(), Inc: w.cur.ID, Kind: "remove", Path: filepath.Clean(e.Path), Seq: e.Seq})
 				if e.Actor != w.cur.Owner && w.incAtCall[e.Actor] != w.cur.ID && w.cur.GuttedBy == "" {
 					// the remover's decision window began on ANOTHER incarnation: it acts on a verdict about a lock which is gone
 					cls := ""
@@ -488,6 +499,7 @@ func (w *World) after(e *fsmon.Event) {
 				inc := &Incarnation{ID: len(w.Incs) + 1, Owner: e.Actor, Birth: e.Seq, BirthT: time.Now(), Newest: time.Now()}
 				w.Incs = append(w.Incs, inc)
 				w.cur = inc
+				w.created.Add(1)
 			}
 			w.mu.Unlock()
 		case (e.Op == fsmon.OpRemove || e.Op == fsmon.OpRemoveAll) && w.isLockPath(e.Path):
@@ -555,6 +567,7 @@ func (w *World) after(e *fsmon.Event) {
 					w.Foreign = append(w.Foreign, fr)
 				}
 				w.cur = nil
+				w.removed.Add(1)
 			}
 			w.mu.Unlock()
 		case e.Op == fsmon.OpFWrite && w.inLockDir(e.Path):
@@ -582,6 +595,13 @@ func (w *World) CurrentInc() int {
 		return 0
 	}
 	return w.cur.ID
+}
+
+// OwnsCurrent reports whether actor created the lock directory which exists now.
+func (w *World) OwnsCurrent(actor string) bool {
+	w.mu.Lock()
+	defer w.mu.Unlock()
+	return w.cur != nil && w.cur.Owner == actor
 }
 
 func (w *World) ms() int64 { return time.Since(w.Start).Milliseconds() }
